@@ -1,0 +1,18 @@
+// SPDX-FileCopyrightText: 2020 Alvar Penning
+//
+// SPDX-License-Identifier: GPL-3.0-or-later
+
+//go:build verif
+// +build verif
+
+package agent
+
+// VerifSchedHook is called at every schedule point with the point's label (verification builds only).
+var VerifSchedHook func(label string)
+
+// verifSchedPoint marks a point between two steps of an operation on state shared between goroutines.
+func verifSchedPoint(label string) {
+	if h := VerifSchedHook; h != nil {
+		h(label)
+	}
+}
